@@ -7,6 +7,7 @@ import (
 	"math/rand"
 	"path/filepath"
 	"strconv"
+	"strings"
 	"sync"
 	"time"
 
@@ -1602,7 +1603,22 @@ func (p *partition) sendAck(ack *client.Ack) {
 		p.srv.logger.Errorf("Error marshaling ack for partition %s: %v", p, err)
 		return
 	}
-	if err := p.srv.ncAcks.Publish(ack.AckInbox, data); err != nil {
+	p.publishAck(ack.AckInbox, data)
+}
+
+// publishAck publishes the marshaled ack to the given AckInbox. The inbox is
+// chosen by the publisher of the message and the NATS client writes the subject
+// of a publish into the connection as is. An inbox containing whitespace would
+// end the subject or the protocol line early, and what follows would be read
+// as reply subject, payload size or further protocol commands sent by this
+// server, so no ack is sent to such an inbox.
+func (p *partition) publishAck(inbox string, data []byte) {
+	if strings.ContainsAny(inbox, " \t\r\n") {
+		p.srv.logger.Errorf(
+			"Error sending ack for partition %s: AckInbox is not a valid NATS subject", p)
+		return
+	}
+	if err := p.srv.ncAcks.Publish(inbox, data); err != nil {
 		p.srv.logger.Errorf("Error sending ack for partition %s: %v", p, err)
 	}
 }
@@ -1632,9 +1648,7 @@ func (p *partition) sendTooLargeNack(msg *commitlog.Message) {
 		p.srv.logger.Errorf("Error marshaling ack for partition %s: %v", p, err)
 		return
 	}
-	if err := p.srv.ncAcks.Publish(ack.AckInbox, data); err != nil {
-		p.srv.logger.Errorf("Error sending ack for partition %s: %v", p, err)
-	}
+	p.publishAck(ack.AckInbox, data)
 }
 
 // sendInvalidNack publishes an ack containing an error indicating the message
